@@ -103,8 +103,8 @@ func checkSeenOnlyWithRecordedPrefix(p *core.Prog, r *core.Report, rule string) 
 			r.Check(ok, rule, "seen←"+core.FuncName(fn), "a key is marked seen only where it is appended to DeletedPrefixes (same branch)", "seen[key] is set on a path that records no deleted prefix", p.Pos(w.Instr.Pos()))
 		}
 	}
-	if n < 2 {
-		core.Undecide("PartialKV.seen: only %d writes found", n)
+	if n < 1 { // (the two recording sites may share one helper)
+		core.Undecide("PartialKV.seen: no write found")
 	}
 }
 
